@@ -190,6 +190,68 @@ def run(res, tier):
             res.bad("R-ARENA-STALE", name, f["file"], lines[0],
                     f"{name} rewinds d->parena but neither it nor all of its callers ({sorted(c[1] for c in cs)[:4]}) clear the "
                     f"arena-backed pointers: stale efc/island pointers would alias recycled arena memory")
+    # ---------------------------------------------------------------- R-ITERATE-INIT
+    # The solvers start from (qacc, efc_force).  The function that prepares that starting point (it reads qacc_warmstart and is
+    # called by the constraint stage before the solver dispatch) must define both on every path: efc_force lives in the arena,
+    # whose memory is recycled from call to call, so a path that leaves it unwritten lets the result depend on what an earlier
+    # call happened to leave there (PGS iterates in place on efc_force).
+    res.rule("R-ITERATE-INIT", "the solver's starting point (qacc, efc_force) is written on every path of the warm/cold-start routine", floor=2)
+    from .. import modref, paths, r_fresh
+    uf_ = engine.unit("src/engine/engine_forward.c")
+    fc = uf_.funcs.get("mj_fwdConstraint")
+    if fc is None:
+        raise AnalysisError("mj_fwdConstraint not found")
+    starters = [cir.callee(c) for c in cir.calls(fc) if cir.callee(c) in uf_.funcs and
+                any(x.get("k") == "MemberExpr" and x.get("n") == "qacc_warmstart" for x in cir.walk(uf_.funcs[cir.callee(c)]))]
+    starters = sorted(set(starters))
+    if len(starters) != 1:
+        raise AnalysisError(f"warm/cold-start routine (callee of mj_fwdConstraint reading qacc_warmstart) not identified: {starters}")
+    from .. import norm
+    wfn = norm.canon(uf_, starters[0], nested=False)
+    NEED = ("qacc", "efc_force")
+
+    class Init(paths.Rule):
+        def initial(self, fn):
+            return frozenset()
+
+        def _ev(self, st, node):
+            add = set()
+            for e in modref.events(node, {"mjData"}):
+                if e["field"] in NEED and e["kind"] in ("assign", "elem", "pass", "addr"):
+                    add.add(e["field"])
+            return st | add
+
+        def call(self, st, node, name, ctx):
+            st = self._ev(st, {"k": "CompoundStmt", "i": [node]})
+            k_ = g.resolve(uf_.tu, name) if name else None
+            if k_ is not None:
+                st = st | (set(r_fresh.summary(g, k_)[1]) & set(NEED))
+            return st
+
+        def assign(self, st, node, ctx):
+            return self._ev(st, {"k": "CompoundStmt", "i": [node]}) if node.get("k") != "VarDecl" else st
+
+        def _exit(self, st, node, ctx):
+            for f_ in NEED:
+                if f_ not in st:
+                    ctx.report(node, f_)
+
+        def ret(self, st, node, ctx):
+            self._exit(st, node, ctx)
+
+        def fallthrough(self, st, ctx):
+            self._exit(st, ctx.fn, ctx)
+    ctx = paths.explore(Init(), uf_, wfn)
+    missing = sorted({r["msg"] for r in ctx.reports})
+    for f_ in NEED:
+        if f_ in missing:
+            ln = next(r["line"] for r in ctx.reports if r["msg"] == f_)
+            res.bad("R-ITERATE-INIT", f"{starters[0]}:{f_}", "src/engine/engine_forward.c", ln,
+                    f"{starters[0]} has a path that reaches its end without writing d->{f_}: the solver then starts from whatever the "
+                    f"recycled memory holds (efc_force is arena memory), so two calls from the same state can differ")
+        else:
+            res.ok("R-ITERATE-INIT", f"{starters[0]}:{f_}", None)
+
     # ---------------------------------------------------------------- state tables and reset coverage (shared with C26)
     # "made by mj_copyState or mj_setState into a fresh, reset or previously used mjData": the state API must move exactly the
     # state components and reset must reinitialise everything the simulation writes.
